@@ -592,6 +592,184 @@ func c20SliceInt(x *mc.X) *mc.Outcome {
 	return c20Check(fmt.Sprintf("Slice(Int).Contains(%d)", needle), []string{"Parse", "Validate"}[mode], fmt.Sprint(subj), skipped, want, "contained", flat, dest)
 }
 
+// Contains on element types for which deep equality and == differ (pointers, values holding
+// pointers, slices, structs): membership must be reflect.DeepEqual, element by element.
+type c20Pair struct {
+	A string
+	B int
+}
+type c20Holder struct{ P *int }
+
+func c20SliceDeep(x *mc.X) *mc.Outcome {
+	zh.Reset()
+	zh.Install(x, zh.PoolLIFO, zh.OrderSorted)
+	mode := x.Choose(2, "mode")
+	kind := x.Choose(7, "elemKind")
+	ip := func(v int) *int { return &v }
+	zone := func(h int) *time.Location { return time.FixedZone("X", h*3600) } // a fresh, deeply equal Location each time
+	base := time.Date(2024, 5, 6, 7, 8, 9, 0, time.UTC)
+	// mk(i) builds a fresh value of domain element i (two calls never share memory)
+	var mk func(i int) any
+	var dom int
+	var schema *z.SliceSchema
+	var name string
+	var mkSlice func(vals []any) any // typed slice for Validate / typed input for Parse
+	switch kind {
+	case 0:
+		name, dom = "Slice(Ptr(Int)).Contains(*int)", 3
+		mk = func(i int) any { return ip(i) }
+		mkSlice = func(vals []any) any {
+			out := []*int{}
+			for _, v := range vals {
+				out = append(out, v.(*int))
+			}
+			return out
+		}
+	case 1:
+		name, dom = "Slice(Time).Contains(time in a fresh equal Location)", 3
+		mk = func(i int) any {
+			switch i {
+			case 0:
+				return base.In(zone(1))
+			case 1:
+				return base.Add(time.Hour).In(zone(1))
+			}
+			return base.In(zone(2)) // same instant as 0, another zone: not deeply equal
+		}
+		mkSlice = func(vals []any) any {
+			out := []time.Time{}
+			for _, v := range vals {
+				out = append(out, v.(time.Time))
+			}
+			return out
+		}
+	case 2:
+		name, dom = "Slice(Slice(Int)).Contains([]int)", 3
+		mk = func(i int) any { return [][]int{{1}, {1, 2}, {}}[i] }
+		mkSlice = func(vals []any) any {
+			out := [][]int{}
+			for _, v := range vals {
+				out = append(out, v.([]int))
+			}
+			return out
+		}
+	case 3:
+		name, dom = "Slice(Struct{a,b}).Contains(struct)", 3
+		mk = func(i int) any { return []c20Pair{{"x", 1}, {"x", 2}, {"y", 1}}[i] }
+		mkSlice = func(vals []any) any {
+			out := []c20Pair{}
+			for _, v := range vals {
+				out = append(out, v.(c20Pair))
+			}
+			return out
+		}
+	case 4:
+		name, dom = "Slice(Float64).Contains(float incl. NaN)", 3
+		mk = func(i int) any { return []float64{1.5, math.NaN(), 0}[i] }
+		mkSlice = func(vals []any) any {
+			out := []float64{}
+			for _, v := range vals {
+				out = append(out, v.(float64))
+			}
+			return out
+		}
+	case 5:
+		name, dom = "Slice(Ptr(String)).Contains(*string)", 2
+		mk = func(i int) any { s := []string{"p", "q"}[i]; return &s }
+		mkSlice = func(vals []any) any {
+			out := []*string{}
+			for _, v := range vals {
+				out = append(out, v.(*string))
+			}
+			return out
+		}
+	case 6:
+		name, dom = "Slice(Custom[holder]).Contains(struct holding a pointer)", 2
+		mk = func(i int) any { return c20Holder{P: ip(i)} }
+		mkSlice = func(vals []any) any {
+			out := []c20Holder{}
+			for _, v := range vals {
+				out = append(out, v.(c20Holder))
+			}
+			return out
+		}
+	}
+	needleIdx := x.Choose(dom, "needle")
+	l := x.Choose(3, "len")
+	var idx []int
+	for i := 0; i < l; i++ {
+		idx = append(idx, x.Choose(dom, fmt.Sprintf("el%d", i)))
+	}
+	var vals []any
+	for _, i := range idx {
+		vals = append(vals, mk(i))
+	}
+	needle := mk(needleIdx)
+	want := false
+	for _, v := range vals {
+		if reflect.DeepEqual(v, needle) {
+			want = true
+		}
+	}
+	switch kind {
+	case 0:
+		schema = z.Slice(z.Ptr(z.Int())).Contains(needle)
+	case 1:
+		schema = z.Slice(z.Time()).Contains(needle)
+	case 2:
+		schema = z.Slice(z.Slice(z.Int())).Contains(needle)
+	case 3:
+		schema = z.Slice(z.Struct(z.Schema{"a": z.String(), "b": z.Int()})).Contains(needle)
+	case 4:
+		schema = z.Slice(z.Float64()).Contains(needle)
+	case 5:
+		schema = z.Slice(z.Ptr(z.String())).Contains(needle)
+	case 6:
+		schema = z.Slice(z.CustomFunc(func(p *c20Holder, ctx z.Ctx) bool { return true })).Contains(needle)
+	}
+	typed := mkSlice(vals)
+	destPtr := reflect.New(reflect.TypeOf(typed))
+	var issues z.ZogIssueMap
+	skipped := false
+	if mode == 0 {
+		// Parse from untyped values: pointers are allocated afresh, so equality can only be deep
+		var in []any
+		for _, v := range vals {
+			rv := reflect.ValueOf(v)
+			if rv.Kind() == reflect.Pointer {
+				in = append(in, rv.Elem().Interface())
+			} else if p, ok := v.(c20Pair); ok {
+				in = append(in, map[string]any{"a": p.A, "b": p.B})
+			} else {
+				in = append(in, v)
+			}
+		}
+		if in == nil {
+			in = []any{}
+		}
+		issues = schema.Parse(in, destPtr.Interface())
+		// a zero-valued leaf (0, 0.0) is absent in Parse and is not written: the subject is what was parsed
+		want = false
+		d := destPtr.Elem()
+		for i := 0; i < d.Len(); i++ {
+			if reflect.DeepEqual(d.Index(i).Interface(), needle) {
+				want = true
+			}
+		}
+	} else {
+		destPtr.Elem().Set(reflect.ValueOf(typed))
+		skipped = len(vals) == 0
+		issues = schema.Validate(destPtr.Interface())
+	}
+	var flat z.ZogIssueList
+	for k, l := range issues {
+		if k != "$first" {
+			flat = append(flat, l...)
+		}
+	}
+	return c20Check(name, []string{"Parse", "Validate"}[mode], fmt.Sprintf("elements %v needle %d", idx, needleIdx), skipped, want, "contained", flat, nil)
+}
+
 // grammar items ---------------------------------------------------------------
 
 func c20Grammar(name, code string, build func(s *z.StringSchema[string], not bool) *z.StringSchema[string], pred func(string) bool, gen func(x *mc.X) string) mc.Scenario {
@@ -730,6 +908,7 @@ func init() {
 			items = append(items, Item{Name: "time", MaxDevs: -1, Run: c20Time})
 			items = append(items, Item{Name: "slice/string", MaxDevs: -1, Run: c20Slice})
 			items = append(items, Item{Name: "slice/int", MaxDevs: -1, Run: c20SliceInt})
+			items = append(items, Item{Name: "slice/contains-deep-equality", MaxDevs: -1, Run: c20SliceDeep})
 			return items
 		},
 	})
